@@ -283,9 +283,9 @@ def r13_3(prog, out):
         for bb, t in bi.calls(lambda c: c.path.endswith("Ordering::reverse")):
             out.violation(key + ":direction", bi.loc(bb), "cmp result is reversed")
         # counter
-        nid = A.cell(state, "next_id")
-        ws = [(bid, e) for bid in prog.facts.bodies for e in prog.effects(bid) if e.kind == "write" and not e.chain and e.touches(nid)]
-        if not ws:
+        nid = A.cell(state, "next_id", optional=True)
+        ws = [(bid, e) for bid in prog.facts.bodies for e in prog.effects(bid) if e.kind == "write" and not e.chain and e.touches(nid)] if nid else []
+        if nid is not None and not ws:
             raise CheckBroken("no writer of %s.next_id" % state)
         for bid, e in ws:
             bi2 = prog.info(bid)
@@ -302,10 +302,13 @@ def r13_3(prog, out):
             t = bi2.call_at(bb2)
             idx = [i for i, a in enumerate(t.args) if bi2.body.operand_ty(a) == "u32"]
             key2 = "id-source:%s:%s" % (label, prog.short(bid))
-            if idx and nid in cells_of(prog, bi2, prog.receiver_origin(bi2, t.args[idx[0]])):
+            if idx and nid is not None and nid in cells_of(prog, bi2, prog.receiver_origin(bi2, t.args[idx[0]])):
                 out.holds(key2, bi2.loc(bb2), "%s::new receives the manager's counter value" % key_ty)
             else:
-                out.violation(key2, bi2.loc(bb2), "the internal id of a new %s does not come from the manager's counter" % label)
+                s2 = sl.of(bid, t.args[idx[0]]) if idx else None
+                how = sorted(c.split("::")[-1] for c in s2.calls)[:4] if s2 else []
+                out.violation(key2, bi2.loc(bb2), "the internal id of a new %s does not come from a counter that only increases (%s): after deletions ids repeat or go "
+                              "backwards, so listing order is no longer creation order" % (label, how or "no counter field"))
 
 
 @rule("C13", "R13.4", "next offset = offset + page length on a non-empty page, none on an empty page", floor=1)
